@@ -61,6 +61,15 @@ def chars_jobs(ctx, invariants, ops, nontrivial, pairs_quick=4, shorter=0):
         ctx.job("chars[%s|%s]" % (ds, de),
                 gens=[{"base": "GenChars", "consts": {"Alphabet": Chars("".join(al)), "N": n - shorter}}],
                 invariants=invariants, ops=ops, cfg={"ds": ds, "de": de}, nontrivial=nontrivial)
+    # characters with a special role elsewhere (byte order mark, NUL, line / paragraph separator, next line, form feed,
+    # zero-width space) and characters whose code point equals a delimiter character modulo 256 (truncating casts)
+    for (ds, de) in [("<", ">"), ("[[", "]]")][: 1 if ctx.quick and shorter else 2]:
+        coll = "".join(chr(0x400 + ord(c)) for c in dict.fromkeys(ds[0] + de[0])) + chr(0x100 + ord(ds[0]))
+        for (nm, extra) in [("specials", "\ufeff\x00\u2028\x0c"), ("colliders", coll + "a")]:
+            al = alphabet(ds, de, extra)
+            ctx.job("chars-%s[%s|%s]" % (nm, ds, de),
+                    gens=[{"base": "GenChars", "consts": {"Alphabet": Chars("".join(al)), "N": (5 if ctx.quick else 6) - shorter}}],
+                    invariants=invariants, ops=ops, cfg={"ds": ds, "de": de}, nontrivial=nontrivial)
     # the multi-byte delimiters that overlap themselves are in every run: over the delimiter's own characters plus one
     # filler the strings get long enough for every fallback position (character count vs. byte count of the part re-read)
     for (ds, de) in HARD_PAIRS:
@@ -176,7 +185,7 @@ def check_C01(ctx):
     gens = [lines_gen(6 if q else 8, 3, 3, ["Ru", "R", "P"], blank=False),
             lines_gen(6 if q else 9, 2, 2, ["Ru", "Pu", "R"], blank=True, base=1),
             lines_gen(7 if q else 9, 2, 2, ["Ru"], blank=False, pairs=True, max_code=4),     # touching removed regions + unwrap
-            lines_gen(7 if q else 8, 2, 2, ["Ru", "R"], blank=False, inline=True, max_code=3, base=1, edge="あ"),   # multi-byte characters glued to inline tags
+            lines_gen(6 if q else 8, 2, 2, ["Ru", "R"], blank=False, inline=True, max_code=2 if q else 3, base=1, edge="あ"),   # multi-byte characters glued to inline tags
             lines_gen(6 if q else 7, 2, 2, ["Ru", "R"], blank=False, tail=True, max_code=2, base=1, edge="😀"),
             lines_gen(14, 3, 5, ["Ru", "R", "P", "Pu", "T", "S"], free=(0, 2), ws=(2,), simulate=(40 if q else 2000, 14))]
     ctx.job("unwrap-wrapper-tags", gens=gens, invariants=["Inv_C01"], ops=ops, cfg={"ds": "<", "de": ">"}, nontrivial=has_ready)
@@ -187,6 +196,16 @@ def check_C01(ctx):
                                 for (off, targets) in [("", []), ("UTC", ["a"]), ("+25:00", ["", "a"])]],
             invariants=["Inv_C01"], ops=ops, cfg={"ds": "<", "de": ">"}, nontrivial=None)
     pump_job(ctx, ["Inv_C01"], ops, sorted(PUMP_UNITS), [257] if q else [100, 257, 1000])
+    # the command itself: current instants written with and without a zone, in process zones with daylight saving, at
+    # local times that do not exist (spring gap) or exist twice (autumn)
+    for (nm, now) in [("gap-us", [19792, 9000]), ("fold-us", [20030, 5400]), ("gap-eu", [19813, 9000])][: 2 if q else 3]:
+        ctx.job("cli-current[%s]" % nm,
+                gens=[{"base": "GenCli", "consts": {"Docs": [Chars(d) for d in CLI_DOCS_DEFAULT[1:3]], "TargetPool": [Chars("a")],
+                                                    "Zones": ["America/New_York", "EST5EDT,M3.2.0,M11.1.0", "Europe/Berlin", "CET-1CEST,M3.5.0,M10.5.0/3", "UTC"],
+                                                    "Langs": [""], "OmitAll": True, "Part": "stdout", "Currents": TlaSet(["given", "naive", "garbage"]), "ArgForms": ["eq"]}}],
+                invariants=["Inv_C01"], ops=[], cli=True,
+                cfg={"ds": "<!-- <", "de": "> -->", "tl": "time-limited", "rm": "removal-marker", "off": "+00:00", "now": now, "targets": []},
+                nontrivial=None)
     repo_docs_job(ctx, ["Inv_C01"], LIST_OPS)
 
 
@@ -204,12 +223,12 @@ K = {"T1": ["T1", False], "T2": ["T2", False], "T3": ["T3", False], "T1u": ["T1"
 
 
 def lines_gen(L, D, E, kinds, unit="  ", base=0, free=(), ws=(), blank=True, suffix="", simulate=None, code_a="", code_b="",
-              mb=False, max_code=99, empty_default=False, pairs=False, preamble=0, inline=False, pair_kind="R", eol="\n", tag_sep=" ", flag_val="", quote="'", flags_first=False, tail=False, pad="", wide=False, free_tags=True, tail_kinds=None, crossing=False, free_code=True, extra_attr="", eq_pad=("", ""), edge=""):
+              mb=False, max_code=99, empty_default=False, pairs=False, preamble=0, inline=False, pair_kind="R", eol="\n", tag_sep=" ", flag_val="", quote="'", flags_first=False, tail=False, pad="", wide=False, free_tags=True, tail_kinds=None, crossing=False, free_code=True, extra_attr="", eq_pad=("", ""), edge="", lead=""):
     from vlib import TlaSet
     g = {"base": "GenLines", "constraint": "Feasible",
          "consts": {"L": L, "D": D, "E": E, "Kinds": TlaSet([K[k] for k in kinds]), "Unit": Chars(unit), "Base": base,
                     "FreeInd": TlaSet(list(free)), "FreeTags": free_tags, "FreeCode": free_code, "WsLens": TlaSet(list(ws)), "Blank": blank, "Suffix": Chars(suffix), "CodeA": Chars(code_a), "CodeB": Chars(code_b), "MbCode": mb, "MaxCode": max_code, "EmptyDefault": empty_default, "PairLines": pairs, "Preamble": preamble,
-                    "InlineTags": inline, "PairKind": K[pair_kind], "EOL": Chars(eol), "TagSep": Chars(tag_sep), "FlagVal": Chars(flag_val), "QuoteCh": ord(quote), "FlagsFirst": flags_first, "Crossing": crossing, "TailElems": tail, "TailKinds": TlaSet([K[k] for k in (tail_kinds or kinds)]), "TagPad": Chars(pad), "ExtraAttr": Chars(extra_attr), "EqPad": [Chars(eq_pad[0]), Chars(eq_pad[1])], "WideCode": wide, "EdgeCh": Chars(edge),
+                    "InlineTags": inline, "PairKind": K[pair_kind], "EOL": Chars(eol), "TagSep": Chars(tag_sep), "FlagVal": Chars(flag_val), "QuoteCh": ord(quote), "FlagsFirst": flags_first, "Crossing": crossing, "TailElems": tail, "TailKinds": TlaSet([K[k] for k in (tail_kinds or kinds)]), "TagPad": Chars(pad), "ExtraAttr": Chars(extra_attr), "EqPad": [Chars(eq_pad[0]), Chars(eq_pad[1])], "WideCode": wide, "EdgeCh": Chars(edge), "Lead": Chars(lead),
                     "PastTo": Chars(PAST), "FutureTo": Chars(FUTURE),
                     "Tos": [Chars(t) for t in TOS], "Names": [Chars(n) for n in MNAMES]}}
     if simulate:
@@ -270,6 +289,13 @@ def block_jobs(ctx, invariants, ops, lite=False):
                 dict(lines_gen(4, 2, 2, ["R", "P"], blank=False, tail=True, max_code=2, edge="<"), cfg=html),   # the delimiter's first character once more in front of a tag
                 dict(lines_gen(4, 2, 2, ["R", "T"], blank=False, tail=True, max_code=2, edge="/"), cfg={"ds": "/* <", "de": "> */"}),
                 lines_gen(6, 2, 3, ["R", "US", "UST", "T"], blank=False, crossing=True, max_code=1),       # an unclosed element inside a wrapper whose name ends with its name
+                dict(lines_gen(4, 2, 2, ["T", "R"], blank=False, max_code=2), cfg={"off": "+09:00", "now": [10956, 72000]}),   # expired only because of the offset
+                dict(lines_gen(4, 2, 2, ["T", "P"], blank=False, max_code=2), cfg={"off": "-0800", "now": [10957, 14400]}),    # not yet expired only because of the offset
+                lines_gen(8, 1, 1, ["R"], blank=True, max_code=2, empty_default=True),                        # two and more blank lines on both sides of a block
+                dict(lines_gen(4, 2, 2, ["R", "T"], blank=False, tail=True, max_code=2, pad=" -"), cfg={"ds": "<!--", "de": "-->"}),   # the end delimiter's first character once more in front of it
+                lines_gen(4, 2, 2, ["R", "P"], ws=(2,), lead="\ufeff"),                                          # a byte order mark in front of the document
+                lines_gen(4, 2, 2, ["R", "P"], blank=True, lead="m1;\r\n"),                                     # mixed line ends: one CRLF line in front of an LF document
+                lines_gen(4, 2, 2, ["R", "P"], blank=False, code_b="\r"),                                         # a lone carriage return inside a line of code
                 lines_gen(5 if not lite else 4, 2, 2, ["R", "P"], ws=(2,), eol="\r\n"),                       # CRLF documents: CR is an ordinary character, line numbers count LF
                 lines_gen(6, 1, 1, ["R"], unit=" " * 35, base=1, ws=(35, 70), blank=False, max_code=2),       # very wide indentation and whitespace-only lines (look-behind windows)
                 lines_gen(5, 1, 1, ["R"], blank=True, wide=True, max_code=2),                           # lines of wide blanks (U+3000, NBSP) only
@@ -285,7 +311,7 @@ def block_jobs(ctx, invariants, ops, lite=False):
                 dict(lines_gen(4, 2, 2, ["NV", "NN", "R"], blank=False), cfg={"targets": ["a", ""]}),   # valueless names, "" among the targets
                 lines_gen(4, 2, 2, ["R", "P"], blank=False, pad=" "),                                   # padded tags: <tag a='b' >
                 lines_gen(14, 3, 5, ["R", "P", "S", "SP", "SF", "U", "T", "F"], ws=(2,), base=ctx.seed % 2, simulate=(15 if lite else 40, 14)),
-                kitchen_sink(ctx, ["R", "P", "S", "U", "T", "F"], 12, 10 if lite else 40),
+                kitchen_sink(ctx, ["R", "P", "S", "U", "T", "F"], 12, 8 if lite else 20),
                 dict(lines_gen(5 - d // 2, 2, 2, ["R", "P", "T"], ws=(2,)), cfg=html)]
         ctx.job("block", gens=gens, invariants=invariants, ops=ops, cfg={"ds": "<", "de": ">"}, nontrivial=has_ready)
         return
@@ -306,6 +332,11 @@ def block_jobs(ctx, invariants, ops, lite=False):
                                lines_gen(6, 2, 2, ["Ru", "R"], blank=False, extra_attr=" xunwrap-block unwrap-blocks")]),
         ("block-crossing", [lines_gen(8, 3, 3, ["R", "P", "T"], blank=False, crossing=True, max_code=3),
                             lines_gen(7, 2, 3, ["R", "US", "UST", "T"], blank=False, crossing=True, max_code=2)]),
+        ("block-offsets", [dict(lines_gen(6, 2, 2, ["T", "R", "F"], blank=False, max_code=3), cfg={"off": "+09:00", "now": [10956, 72000]}),
+                           dict(lines_gen(6, 2, 2, ["T", "P"], blank=False, max_code=3), cfg={"off": "-0800", "now": [10957, 14400]})]),
+        ("block-many-blanks", [lines_gen(11, 1, 1, ["R"], blank=True, max_code=2, empty_default=True), lines_gen(9, 1, 1, ["R"], ws=(1,), blank=True, max_code=2, empty_default=True)]),
+        ("block-lead", [lines_gen(6, 2, 2, ["R", "P"], ws=(2,), lead="\ufeff"), lines_gen(6, 2, 2, ["R", "P"], blank=True, lead="m1;\r\n"),
+                        lines_gen(6, 2, 2, ["R", "P"], blank=False, code_b="\r"), lines_gen(6, 2, 2, ["R", "T"], blank=True, lead="\r")]),
         ("block-crlf", [lines_gen(7, 2, 2, ["R", "P"], ws=(2,), eol="\r\n"), lines_gen(6, 2, 2, ["R", "T"], base=1, blank=True, tail=True, max_code=2, eol="\r\n")]),
         ("block-wide-indent", [lines_gen(7, 1, 1, ["R"], unit=" " * 35, base=1, ws=(35, 70), blank=True, max_code=2),
                                lines_gen(5, 2, 2, ["R", "P"], unit=" " * 130, base=1, ws=(130, 260), blank=True, max_code=2),
@@ -356,10 +387,13 @@ def unwrap_jobs(ctx, invariants, ops, lite=False):
                 lines_gen(6, 2, 2, ["Ru", "Tu", "P"], free=(1,), blank=False, quote='"', flags_first=True),   # flags first, double quotes
                 lines_gen(6, 2, 2, ["Ru", "R"], blank=False, tail=True, max_code=2),
                 lines_gen(6, 2, 2, ["Ru", "P"], blank=False, pad=" "),
-                lines_gen(7 if not lite else 6, 2, 2, ["Ru", "R"], blank=False, inline=True, max_code=3, base=1, edge="あ"),   # a multi-byte character glued to inline tags
+                lines_gen(6, 2, 2, ["Ru", "R"], blank=False, inline=True, max_code=2, base=1, edge="あ"),   # a multi-byte character glued to inline tags
                 lines_gen(6, 2, 2, ["Ru", "R"], blank=False, tail=True, max_code=2, base=1, edge="é"),
-                lines_gen(7 if not lite else 6, 2, 2, ["Ru", "R"], blank=False, ws=(1, 3), base=1, max_code=3),          # whitespace-only lines shorter / longer than the tag's indentation around a removed child
+                lines_gen(6, 2, 2, ["Ru", "R"], blank=False, ws=(1, 3), base=1, max_code=2),          # whitespace-only lines shorter / longer than the tag's indentation around a removed child
                 lines_gen(6, 2, 2, ["Ru", "R"], blank=False, tail=True, max_code=2, base=1, mb=True),
+                lines_gen(6, 1, 1, ["Ru"], free=(0, 1), blank=False, lead="\ufeff"),                            # a byte order mark in front of the document
+                lines_gen(6, 2, 2, ["Ru", "R"], blank=False, max_code=3, lead="m1;\r\n"),                        # mixed line ends
+                dict(lines_gen(6, 1, 1, ["Tu"], free=(1,), blank=False), cfg={"off": "+09:00", "now": [10956, 72000]}),
                 dict(lines_gen(6, 2, 2, ["Ru", "R"], blank=False, inline=True, max_code=2, edge="<"), cfg={"ds": "<!-- <", "de": "> -->"}),
                 lines_gen(6, 1, 1, ["Ru", "Tu"], free=(1,), blank=False, eq_pad=("", " ")),
                 dict(lines_gen(6, 1, 1, ["RBu", "TBu"], free=(1,), blank=False), cfg={"targets": ["a "]}),
@@ -369,7 +403,7 @@ def unwrap_jobs(ctx, invariants, ops, lite=False):
                 lines_gen(6, 1, 1, ["R", "UXu"], free=(1,), blank=False, extra_attr=" unwrap-blocks UNWRAP-BLOCK"),
                 dict(lines_gen(10, 2, 2, ["Ru"], blank=False, free=(0,), free_code=False, max_code=6), constraint="FeasibleU"),   # nested blocks, tags in the same column
                 lines_gen(16, 3, 4, ["Ru", "R", "P", "Pu", "S", "Su"], free=(0, 1, 2), ws=(2,), simulate=(15 if lite else 30, 16)),
-                kitchen_sink(ctx, ["Ru", "R", "P", "Pu", "T", "Tu", "Su"], 14, 10 if lite else 40)]
+                kitchen_sink(ctx, ["Ru", "R", "P", "Pu", "T", "Tu", "Su"], 14, 8 if lite else 20)]
         ctx.job("unwrap", gens=gens, invariants=invariants, ops=ops, cfg=cfg, nontrivial=has_ready)
         return
     sets = [
@@ -385,6 +419,8 @@ def unwrap_jobs(ctx, invariants, ops, lite=False):
                                  lines_gen(8, 2, 2, ["Ru", "P", "R"], blank=False, base=1, tag_sep="\n     ")]),
         ("unwrap-pairs", [lines_gen(9, 2, 2, ["Ru", "P"], blank=False, pairs=True, max_code=5)]),
         ("unwrap-inline-tags", [lines_gen(8, 2, 3, ["Ru", "R", "P"], blank=False, inline=True, max_code=4)]),
+        ("unwrap-lead", [lines_gen(8, 1, 1, ["Ru"], free=(0, 1, 2), blank=False, lead="\ufeff"), lines_gen(8, 2, 2, ["Ru", "R"], blank=False, max_code=4, lead="m1;\r\n"),
+                         dict(lines_gen(8, 2, 2, ["Tu", "T"], free=(1,), blank=False), cfg={"off": "+09:00", "now": [10956, 72000]})]),
         ("unwrap-ws-lines", [lines_gen(9, 2, 2, ["Ru", "R"], blank=True, ws=(1, 3), base=1, max_code=4), lines_gen(8, 2, 2, ["Ru", "R", "P"], blank=False, ws=(2, 5), base=2, max_code=3)]),
         ("unwrap-mb-neighbours", [lines_gen(8, 2, 2, ["Ru", "R"], blank=False, tail=True, max_code=3, base=1, mb=True),
                                   lines_gen(8, 2, 2, ["Ru", "R"], blank=False, inline=True, max_code=3, base=1, mb=True),
@@ -648,6 +684,10 @@ def check_C15(ctx):
     unwrap_jobs(ctx, ["Inv_C15"], ops, lite=True)
     inline_jobs(ctx, ["Inv_C15"], ops, lite=True)
     pump_job(ctx, ["Inv_C15"], ops, ["lines", "ready", "pending", "nest-p", "mb", "after"], [9, 10, 99, 100] if ctx.quick else [9, 10, 99, 100, 300])
+    # listing is a function of source and configuration alone: the same families in a process environment that asks for no colours
+    ctx.job("environment", gens=[lines_gen(4 if ctx.quick else 5, 2, 2, ["R", "P", "Ru"], blank=False), lines_gen(4, 1, 1, ["T"], unit="\t", base=1, blank=True)],
+            invariants=["Inv_C15"], ops=ops, cfg={"ds": "<", "de": ">"}, nontrivial=has_ready,
+            env={"NO_COLOR": "1", "CLICOLOR": "0", "CLICOLOR_FORCE": "0", "TERM": "dumb", "COLORTERM": "", "LANG": "ja_JP.UTF-8", "COLUMNS": "20", "LINES": "5"})
     repo_docs_job(ctx, ["Inv_C15"], [{"op": "clean"}, {"op": "list_json"}, {"op": "list"}, {"op": "list_json"}])
 
 
@@ -660,6 +700,8 @@ def tab_column_jobs(ctx, invariants, ops):
     gens.append({"base": "GenAtoms", "consts": {"Atoms": [Chars(a) for a in atoms], "N": 5 if q else 6}})
     gens.append(lines_gen(4 if q else 5, 2, 2, ["R", "P", "Ru"], blank=False, preamble=7))      # line numbers cross 9 -> 10
     gens.append(lines_gen(4, 1, 1, ["R", "Pu"], blank=False, preamble=97))                       # ... and 99 -> 100
+    gens.append(lines_gen(4 if q else 5, 2, 2, ["R", "P"], blank=False, code_b="\r"))                    # a lone carriage return is no line end
+    gens.append(lines_gen(4 if q else 5, 1, 1, ["R", "Ru"], blank=False, lead="\r"))
     ctx.job("tab-columns", gens=gens, invariants=invariants, ops=ops, cfg={"ds": "<", "de": ">"}, nontrivial=has_ready)
 
 
@@ -843,7 +885,7 @@ def check_C10(ctx):
         ctx.job("tokens-names[%s,%s]" % (n1, n2),
                 gens=[{"base": "GenAtoms", "consts": {"Atoms": [Chars(a) for a in atoms], "N": 5 if q else 7}}],
                 invariants=["Inv_C10"], ops=[{"op": "tree"}], cfg={"ds": "<", "de": ">"}, nontrivial=has_pair)
-    atoms = ["<a x='1'>", "<a>", "</a>", "<b skip>", "</b>", "</a >", "< a>", "<>", "t", "\n"]
+    atoms = ["<a x='1'>", "<a>", "</a>", "<b skip>", "</b>", "</a >", "< a>", "<>", "t", "\n", "<a\nk>", "</a\nk>"]
     ctx.job("tokens-attrs", gens=[{"base": "GenAtoms", "consts": {"Atoms": [Chars(a) for a in atoms], "N": 5 if q else 6}}],
             invariants=["Inv_C10"], ops=[{"op": "tree"}], cfg={"ds": "<", "de": ">"}, nontrivial=has_pair)
     block_like = [lines_gen(7 if q else 9, 3, 3, ["R", "P", "Ru"], blank=False)]
@@ -876,6 +918,17 @@ def check_C18(ctx):
         g["consts"]["CliPhase"] = ""
         ctx.job("respell[%s|%s]" % (ds, de), gens=[g], invariants=["Inv_C18"], ops=[],
                 cfg={"ds": ds, "de": de, "tl": tl, "rm": rm}, nontrivial=has_ready)
+    # tags of a few hundred characters (a long free-text attribute): lengths around 255 / 256 bytes under some spellings only
+    for n in ([224 + (ctx.seed % 5)] if q else [96, 100, 150, 200, 224, 225, 226, 227, 228]):     # the shortest spelling stays at or below 256 / 128 bytes
+        ds, de = ("<", ">")
+        others = [{"ds": Chars(ds2), "de": Chars(de2), "tl": Chars(tl2), "rm": Chars(rm2)}
+                  for j, (ds2, de2) in enumerate(SPELLINGS) if (ds2, de2) != (ds, de) for (tl2, rm2) in [NAME_POOL[j % len(NAME_POOL)]]]
+        g = lines_gen(4, 1, 1, ["R", "T", "Ru"], blank=False, max_code=2, extra_attr=" note='%s'" % ("n" * n))
+        g["base"] = "GenRespell"
+        g["emit"] = "EmitPairs"
+        g["consts"]["Spellings"] = others
+        g["consts"]["CliPhase"] = ""
+        ctx.job("respell-long-tags[%d]" % n, gens=[g], invariants=["Inv_C18"], ops=[], cfg={"ds": ds, "de": de, "tl": "tl", "rm": "rm"}, nontrivial=has_ready)
     # the command line is the tool: the respelled configuration given by options, for spellings a shell / an argument
     # parser / an escape convention could treat specially (backslashes, leading dashes, '$(', '=', blanks at the edges)
     for (form, (ds, de)) in [("eq", ("[[", "]]")), ("sep", ("<", ">"))][: 1 if q and ctx.seed % 2 else 2]:
@@ -961,6 +1014,7 @@ def check_C19(ctx):
         # tags sharing lines with code: a child closing on the closing wrapper line, opening on the opening one
         ("hist-inline", lines_gen(6 if q else 8, 2, 2, ["T1", "T2u"], blank=False, inline=True, max_code=2 if q else 3)),
     ]
+    hist_pumped_job(ctx)
     for (name, g) in sets:
         g["base"] = "GenHist"
         g["emit"] = "EmitHist"
@@ -1143,3 +1197,20 @@ def cli_big_job(ctx):
              "consts": {"Units": units, "Cores": [Chars(PUMP_CORES[0])], "Ks": TlaSet([3000, 9000] if q else [1500, 3000, 9000, 25000])}}]
     ctx.job("cli-big", gens=gens, invariants=["Inv_C20"], ops=ops, cli=True,
             cfg={"ds": "<", "de": ">", "tl": "tl", "rm": "rm", "off": "+00:00", "now": [19000, 0], "targets": ["a"]}, nontrivial=None, shards=6)
+
+
+def hist_pumped_job(ctx):
+    """histories on deeply nested documents: the core (an unwrap-block that expires later around an element that expires
+    first) inside k unregistered / pending wrappers; at-once clean with the final configuration, then commit + clean per step"""
+    from vlib import TlaSet, cps
+    t = [[11474, 0], [11839, 0], [12204, 0]]
+    core = ("c0;\n<tl to='2002-01-01 00:00:00' unwrap-block>\nif (a) {\n  k1;\n  <tl to='2001-01-01 00:00:00'>\n  old;\n  </tl>\n"
+            "  <rm name='m2'>\n  gone;\n  </rm>\n  k2;\n}\n</tl>\nz1;\n")
+    chain = [{"now": t[0], "targets": []}, {"now": t[1], "targets": ["m2"]}]
+    ops = [{"op": "config", "now": chain[-1]["now"], "targets": [cps(x) for x in chain[-1]["targets"]]}, {"op": "clean"}]
+    for st in chain:
+        ops += [{"op": "config", "now": st["now"], "targets": [cps(x) for x in st["targets"]]}, {"op": "commit"}, {"op": "clean"}]
+    units = [[Chars("<x c='\x01'>\n"), Chars("</x>\n")], [Chars("<rm name='zz'>\n"), Chars("</rm>\n")], [Chars("p\x01;\n"), Chars("q\x01;\n")]]
+    gens = [{"base": "GenPump", "workers": 2,
+             "consts": {"Units": units, "Cores": [Chars(core)], "Ks": TlaSet([7, 8, 9, 40] if ctx.quick else [1, 7, 8, 9, 16, 17, 40, 100])}}]
+    ctx.job("hist-pumped", gens=gens, invariants=["Inv_C19"], ops=ops, cfg={"ds": "<", "de": ">", "targets": []}, nontrivial=has_ready, shards=6)
